@@ -1,4 +1,5 @@
 import QRV.Props.C13
+import QRV.Lemmas.RSDecode
 /-
 C14 — the Reed–Solomon decoder is a correct and sound bounded-distance decoder.
 
@@ -20,31 +21,34 @@ def dist (a b : List Nat) : Nat := ((a.zip b).filter fun p => p.1 != p.2).length
 
 /-- the decoder never panics (and never runs out of fuel: every loop terminates), whatever the input -/
 theorem dec_no_panic (data : List Nat) (hd : Bytes data) (n : Nat) :
-    (RS.decode data n).isPanic = false := by
-  sorry
+    (RS.decode data n).isPanic = false :=
+  QRV.Lemmas.RS.decode_not_panic hd n
 
 /-- success means: same length, a valid codeword (all n syndromes zero) -/
 theorem dec_sound (data data' : List Nat) (hd : Bytes data) (n : Nat)
     (h : RS.decode data n = .ok data') :
-    data'.length = data.length ∧ Bytes data' ∧ Codeword n data' := by
-  sorry
+    data'.length = data.length ∧ Bytes data' ∧ Codeword n data' :=
+  QRV.Lemmas.RS.decode_sound hd h
 
 /-- ... that differs from the input in at most floor(n/2) positions -/
 theorem dec_distance (data data' : List Nat) (hd : Bytes data) (n : Nat)
     (h : RS.decode data n = .ok data') :
-    dist data data' ≤ n / 2 := by
-  sorry
+    dist data data' ≤ n / 2 :=
+  QRV.Lemmas.RS.decode_distance hd h
 
 /-- a codeword is returned unchanged -/
 theorem dec_clean (data : List Nat) (n : Nat) (hc : Codeword n data) :
-    RS.decode data n = .ok data := by
-  sorry
+    RS.decode data n = .ok data :=
+  QRV.Lemmas.RS.decode_clean data n hc
 
 /-- in particular every codeword produced by the (modelled) encoder, for every parity length and
 every message: encode-then-decode is the identity -/
 theorem dec_of_encoder (n : Nat) (h2 : 2 ≤ n) (h68 : n ≤ 68) (msg : List Nat) (hm : Bytes msg) :
     ∃ par, RS.parity n msg = .ok par ∧ RS.decode (msg ++ par) n = .ok (msg ++ par) := by
-  sorry
+  obtain ⟨par, hp, _, _, hz⟩ := C13.parity_is_codeword n h2 h68 msg hm
+  refine ⟨par, hp, dec_clean _ n fun i hi => ?_⟩
+  rw [Nat.mod_eq_of_lt (by omega), QRV.Lemmas.GF.exp_eq_pow2 i (by omega)]
+  exact hz i hi
 
 /-- the full completeness statement (Sugiyama): any word within floor(n/2) of a codeword of length
 ≤ 255 is restored to exactly that codeword.  NOT PROVED: kept visible as a proposition; the partial
@@ -55,7 +59,8 @@ def dec_complete_statement : Prop :=
 
 theorem dec_complete_partial (n : Nat) (c r : List Nat) (hc : Codeword n c) (hr : dist c r = 0)
     (hl : c.length = r.length) : RS.decode r n = .ok c := by
-  sorry
+  rw [← QRV.Lemmas.RS.eq_of_dist_zero c r hl hr]
+  exact dec_clean c n hc
 
 /-! non-vacuity: the Annex I codeword with two damaged bytes is restored (kernel evaluation) -/
 example : RS.decode [0x10, 0x21, 0x0C, 0x56, 0x61, 0x80, 0xEC, 0x11, 0xEC, 0x11, 0xEC, 0x11, 0xEC, 0x11, 0xEC, 0x11,
